@@ -43,6 +43,9 @@ vdie(const char *prefix, const char *func, const char *errstr, ...)
 {
 	(void) prefix; (void) func; (void) errstr;
 	g_died = 1;
+#ifdef V_DIE_HOOK
+	V_DIE_HOOK();
+#endif
 	V_ASSERT(g_die_ok, "die() reached where the property forbids aborting");
 	V_PATH_END("die");
 	abort();
